@@ -33,7 +33,7 @@ SPEC = {'id': 'C12',
              'today; true: kept). Not modelled: protocolName/protocolType pass-through, OffsetFetch/DescribeGroups/ListGroups/DeleteGroups, store errors, the '
              "ticker's real-time jitter.",
  'search_n': 1500,
- 'theorems': ['C12_assignment_partition', 'C12_one_map_per_generation', 'C12_one_map_per_generation_multi', 'C12_round_robin_unique', 'C12_nonvacuous'],
+ 'theorems': ['C12_assignment_partition', 'C12_one_map_per_generation', 'C12_one_map_per_generation_multi', 'C12_round_robin_unique', 'C12_assignment_partition_under_store_faults', 'C12_nonvacuous'],
  'level_text': 'Machine-checked Coq theorems over ALL histories (joins incl. changed subscriptions, syncs, heartbeats, leaves, commits, cleanup ticks at '
                'arbitrary times, failovers; unbounded members/topics/partitions) of the executable coordinator model: every successful sync returns the '
                "group's entry of assignPartitions(current members, current subscriptions), which is proved to be a partition (only subscribed topics and "
@@ -43,3 +43,6 @@ SPEC = {'id': 'C12',
                'state, the stored group and committed offsets after every operation; an implementation-side oracle checks the C12 clauses on every successful '
                'sync of the real code.'}
 SPEC['assumptions'].insert(0, "every coordinator operation holds c.mu from its first read of group state to its last store write (this is what makes the model's step relation atomic per operation, schedules = operation sequences). CHECKED by the harness on the real code: a gating store wrapper intercepts every store call the coordinator makes (Metadata, PutConsumerGroup, FetchConsumerGroup, DeleteConsumerGroup, CommitConsumerOffset) during every operation of every history and tests whether c.mu is free; if it is, the schedule's inner operations are run to completion on the same group while that store call is parked and the failure lock-released-across-store-call:<op>:<storecall> is reported with the schedule as replay (plus whatever the property oracles then observe); where the lock is held the inner operations run after the outer one, which is the order the lock enforces. Windows for every outer kind x inner kind are generated in every quick run.")
+SPEC['assumptions'] = [a for a in SPEC['assumptions'] if not a.startswith('store operations succeed')]
+SPEC['assumptions'].append("transient store failures ARE modelled (model/CoordinatorFaults.v, step relation stepf with a per-operation fault: load of the group / whole-group write / offset write fails) and injected by the harness's gating store wrapper into every operation kind (incl. the first join, leave, the leader's sync, cleanup's persist, the load after a failover); the *_under_store_faults theorems hold for arbitrary failures; claims that compare a coordinator with its successor (C15 view, C13/C12 across failover) need 'the last whole-group write succeeded' (synced), stated in the theorems. Not modelled and not injected: a failing store.Metadata in the leader's sync (collectTopicPartitions falls back to partition 0 per topic). The check needs fixes/C14-join-error-reply-no-members.patch.")
+SPEC['coq_deps'] = ['theories/corr/CoordinatorCorr.vo']
